@@ -15,8 +15,12 @@ Require Import Celma.Common.Res Celma.FixedStr.FsBase Celma.FixedStr.FsModel
   Celma.FixedStr.FsPinned Celma.FixedStr.FsIter.
 Local Open Scope N_scope.
 
-(** Every modifying operation (all 41 modelled entry points: constructors and
-    assign, the insert / erase / push_back / pop_back / append / sprintf /
+(** The object is a FixedString<L>, the other object (argument of the two-object
+    operations) a FixedString<Lo> of an independent capacity; [cap_ok] excludes
+    the operations that do not exist for the two capacities (see C10).
+
+    Every modifying operation (all 42 modelled entry points: constructors incl.
+    the converting constructor from another capacity and assign, the insert / erase / push_back / pop_back / append / sprintf /
     replace families including the iterator overloads, swap, clear; std::string
     has no sprintf: formatting is specified as "assign the formatted text", a
     failing conversion as "assign the empty string"), for every
@@ -24,11 +28,15 @@ Local Open Scope N_scope.
     domain: the operation succeeds and leaves the text std::string has after the
     same operation, cut at the capacity (for swap: both objects). *)
 Theorem C11_mutators_refine :
-  forall L s o x cs' cos' rs,
-    CapOk L -> Inv L s -> Inv L o -> Bounded x -> CstrsOk x -> is_mutator x = true ->
+  forall L Lo s o x cs' cos' rs,
+    CapOk L -> CapOk Lo -> Inv L s -> Inv Lo o -> Bounded x -> CstrsOk x -> cap_ok (Lo =? L) x = true ->
+    is_mutator x = true ->
     std_step (abs s) (abs o) x = Some (cs', cos', rs) ->
-    exists s' o' r, step L s o x = Ok (s', o', r) /\ abs s' = cut L cs' /\ abs o' = cut L cos'.
-Proof. intros L s o x cs' cos' rs H Hs Ho HB HC Hm. exact (mut_refines L H s o x Hs Ho HB HC Hm cs' cos' rs). Qed.
+    exists s' o' r, step L s o x = Ok (s', o', r) /\ abs s' = cut L cs' /\ abs o' = cut Lo cos'.
+Proof.
+  intros L Lo s o x cs' cos' rs H H' Hs Ho HB HC Hc Hm.
+  exact (mut_refines L H Lo H' s o x Hs Ho HB HC Hc Hm cs' cos' rs).
+Qed.
 Print Assumptions C11_mutators_refine.
 
 (** Every observing operation (all 49 modelled entry points: the 9 compare
@@ -46,37 +54,46 @@ Print Assumptions C11_mutators_refine.
     character; find, rfind, the (pointer, count) and the single-character
     overloads need no such restriction. *)
 Theorem C11_observers_refine :
-  forall L s o x cs' cos' rs,
-    CapOk L -> Inv L s -> Inv L o -> Bounded x -> CstrsOk x -> FindOk s o x -> is_mutator x = false ->
+  forall L Lo s o x cs' cos' rs,
+    CapOk L -> CapOk Lo -> Inv L s -> Inv Lo o -> Bounded x -> CstrsOk x -> FindOk s o x ->
+    cap_ok (Lo =? L) x = true -> is_mutator x = false ->
     std_step (abs s) (abs o) x = Some (cs', cos', rs) ->
     step L s o x = Ok (s, o, rs) /\ cs' = abs s /\ cos' = abs o.
-Proof. intros L s o x cs' cos' rs H Hs Ho HB HC HF Hm. exact (obs_all_refines L H s o x Hs Ho HB HC HF Hm cs' cos' rs). Qed.
+Proof.
+  intros L Lo s o x cs' cos' rs H H' Hs Ho HB HC HF Hc Hm.
+  exact (obs_all_refines L H Lo H' s o x Hs Ho HB HC HF Hc Hm cs' cos' rs).
+Qed.
 Print Assumptions C11_observers_refine.
 
-(** All 90 operations in one statement. *)
+(** All 91 operations in one statement. *)
 Theorem C11_step_refines :
-  forall L s o x cs' cos' rs,
-    CapOk L -> Inv L s -> Inv L o -> Bounded x -> CstrsOk x -> FindOk s o x ->
+  forall L Lo s o x cs' cos' rs,
+    CapOk L -> CapOk Lo -> Inv L s -> Inv Lo o -> Bounded x -> CstrsOk x -> FindOk s o x ->
+    cap_ok (Lo =? L) x = true ->
     std_step (abs s) (abs o) x = Some (cs', cos', rs) ->
-    exists s' o' r, step L s o x = Ok (s', o', r) /\ abs s' = cut L cs' /\ abs o' = cut L cos' /\
+    exists s' o' r, step L s o x = Ok (s', o', r) /\ abs s' = cut L cs' /\ abs o' = cut Lo cos' /\
                     (is_mutator x = false -> r = rs /\ s' = s /\ o' = o).
-Proof. intros L s o x cs' cos' rs H Hs Ho HB HC HF. exact (step_refines L H s o x Hs Ho HB HC HF cs' cos' rs). Qed.
+Proof.
+  intros L Lo s o x cs' cos' rs H H' Hs Ho HB HC HF Hc.
+  exact (step_refines L H Lo H' s o x Hs Ho HB HC HF Hc cs' cos' rs).
+Qed.
 Print Assumptions C11_step_refines.
 
 (** Histories.  [run_D] applies a list of operations to a pair of objects,
     [std_run] applies it to a pair of std::string texts, cutting at L after every
     step; both skip the steps outside the domain ([in_dom]: the boolean form of
-    "std_step is defined, C string arguments end at their terminator, no NUL in
-    text / character set for the strchr() based searches").  From any well-formed
+    "std_step is defined, the operation exists for the two capacities, C string
+    arguments end at their terminator, no NUL in text / character set for the
+    strchr() based searches").  From any well-formed
     pair of objects and for any list of operations with size_t arguments the two
     runs end with the same texts and report the same observed values; the run on
     the objects never faults and keeps them well-formed. *)
 Theorem C11_history_refines :
-  forall L ops s o,
-    CapOk L -> Inv L s -> Inv L o -> Forall Bounded ops ->
-    exists s' o' vs, run_D L s o ops = Ok (s', o', vs) /\ Inv L s' /\ Inv L o' /\
-                     std_run L (abs s) (abs o) ops = (abs s', abs o', vs).
-Proof. intros L ops s o H. exact (history_refines L H ops s o). Qed.
+  forall L Lo ops s o,
+    CapOk L -> CapOk Lo -> Inv L s -> Inv Lo o -> Forall Bounded ops ->
+    exists s' o' vs, run_D L Lo s o ops = Ok (s', o', vs) /\ Inv L s' /\ Inv Lo o' /\
+                     std_run L Lo (abs s) (abs o) ops = (abs s', abs o', vs).
+Proof. intros L Lo ops s o H H'. exact (history_refines L H Lo H' ops s o). Qed.
 Print Assumptions C11_history_refines.
 
 (** Iteration in both directions visits the text / the reversed text. *)
